@@ -36,6 +36,8 @@ var (
 	base     time.Time
 	baseSet  bool
 	yieldPos int
+	diverged     bool
+	lastProgress time.Time
 )
 
 func load() {
@@ -148,33 +150,48 @@ func Fact(key, val string) {}
 func Event(tag string) {}
 
 // Yield is a scheduling point in symbolic mode. Natively, when the counterexample carries an event
-// trace, it blocks until the replay reaches this tag in the recorded order (bounded wait).
+// trace, it blocks until the replay reaches this tag in the recorded order. Events that the trace does
+// not contain are held back until the trace has been consumed. If nothing moves for a while the replay
+// is declared diverged and everything runs free.
 func Yield(tag string) {
 	mu.Lock()
 	load()
 	tr := cx.Trace
-	mu.Unlock()
-	if len(tr) == 0 {
+	if len(tr) == 0 || diverged {
+		mu.Unlock()
 		return
 	}
-	deadline := time.Now().Add(300 * time.Millisecond)
-	for time.Now().Before(deadline) {
+	if lastProgress.IsZero() {
+		lastProgress = time.Now()
+	}
+	mu.Unlock()
+	want := "y:" + tag
+	for {
 		mu.Lock()
-		// skip entries that are not yield tags of ours
-		for yieldPos < len(tr) && len(tr[yieldPos]) > 0 && tr[yieldPos][0] != 'y' {
+		if diverged {
+			mu.Unlock()
+			return
+		}
+		for yieldPos < len(tr) && (len(tr[yieldPos]) < 2 || tr[yieldPos][:2] != "y:") {
 			yieldPos++
 		}
 		if yieldPos >= len(tr) {
 			mu.Unlock()
 			return
 		}
-		if tr[yieldPos] == "y:"+tag {
+		if tr[yieldPos] == want {
 			yieldPos++
+			lastProgress = time.Now()
+			mu.Unlock()
+			return
+		}
+		if time.Since(lastProgress) > 500*time.Millisecond {
+			diverged = true
 			mu.Unlock()
 			return
 		}
 		mu.Unlock()
-		time.Sleep(200 * time.Microsecond)
+		time.Sleep(100 * time.Microsecond)
 	}
 }
 
@@ -371,3 +388,7 @@ func Cut(label string) { panic(assumeFailed{"cut: " + label}) }
 
 // DeepCopy copies the object graph of v (model of deep.MustCopy and of a vault's Read).
 func DeepCopy[T any](v T) T { return deep.MustCopy(v) }
+
+// LogicalClock switches the symbolic clock to a logical one: successive readings are concrete and strictly
+// increasing. Used where timestamps matter only through their order. Natively a no-op (the real clock runs).
+func LogicalClock() {}
